@@ -468,6 +468,141 @@ example : obsHP (XHostport.run { p0 := "[::1]:80".toUTF8.toList }) = .ok ("[::1]
 example : obsHP (XHostport.run { p0 := "backend".toUTF8.toList }) = .ok ("backend".toList, []) := by decide +kernel
 
 
+/-! ### `hostport` on UTF-8 strings -/
+
+/-- UTF-8 of a text, as Go holds it -/
+def utf8 (cs : List Char) : Bytes := cs.flatMap String.utf8EncodeChar
+
+/-- the byte 58 occurs in the UTF-8 encoding of a character only as the encoding of `:` itself (every byte of a
+multi-byte sequence is ≥ 128) -/
+theorem colon_in_utf8 (c : Char) (h : (58 : UInt8) ∈ String.utf8EncodeChar c) : c = ':' := by
+  have hv : c.val.toNat < 1114112 := by
+    have := c.valid
+    simp only [UInt32.isValidChar, Nat.isValidChar] at this
+    omega
+  have key : ∀ n : Nat, UInt8.ofNat n = 58 → n % 256 = 58 := by
+    intro n hn
+    have := congrArg UInt8.toNat hn
+    simpa using this
+  unfold String.utf8EncodeChar at h
+  simp only at h
+  split at h
+  · simp only [List.mem_singleton] at h
+    have := key _ h.symm
+    have hc : c.val.toNat = 58 := by omega
+    exact Char.ext (UInt32.toNat_inj.mp hc)
+  · split at h
+    · simp only [List.mem_cons, List.not_mem_nil, or_false] at h
+      rcases h with h | h <;> (have := key _ h.symm; omega)
+    · split at h
+      · simp only [List.mem_cons, List.not_mem_nil, or_false] at h
+        rcases h with h | h | h <;> (have := key _ h.symm; omega)
+      · simp only [List.mem_cons, List.not_mem_nil, or_false] at h
+        rcases h with h | h | h | h <;> (have := key _ h.symm; omega)
+
+theorem utf8_colon : String.utf8EncodeChar ':' = [58] := by decide
+
+theorem colon_mem_utf8 (cs : List Char) : (58 : UInt8) ∈ utf8 cs ↔ ':' ∈ cs := by
+  unfold utf8
+  constructor
+  · intro h
+    obtain ⟨c, hc, hm⟩ := List.mem_flatMap.mp h
+    have := colon_in_utf8 c hm
+    subst this; exact hc
+  · intro h
+    exact List.mem_flatMap.mpr ⟨':', h, by rw [utf8_colon]; simp⟩
+
+set_option maxRecDepth 20000 in
+theorem latin1_toNat (x : UInt8) : (Char.ofNat x.toNat).toNat = x.toNat := by
+  have h : ∀ n : Fin 256, (Char.ofNat n.val).toNat = n.val := by decide
+  exact h ⟨x.toNat, x.toNat_lt⟩
+
+theorem chars_inj (a b : Bytes) (h : chars a = chars b) : a = b := by
+  refine (List.map_inj_right ?_).mp h
+  intro x y hxy
+  have := congrArg Char.toNat hxy
+  rw [latin1_toNat, latin1_toNat] at this
+  exact UInt8.toNat_inj.mp this
+
+theorem colon_mem_chars (b : Bytes) : ':' ∈ chars b ↔ (58 : UInt8) ∈ b := by
+  unfold chars
+  constructor
+  · intro h
+    obtain ⟨x, hx, he⟩ := List.mem_map.mp h
+    have := colon_byte x
+    rw [he] at this
+    simp at this
+    rw [← this]; exact hx
+  · intro h
+    exact List.mem_map.mpr ⟨58, h, rfl⟩
+
+theorem split_unique_gen {α} (c : α) (h1 h2 p1 p2 : List α) (c1 : c ∉ p1) (c2 : c ∉ p2)
+    (h : h1 ++ c :: p1 = h2 ++ c :: p2) : h1 = h2 ∧ p1 = p2 := by
+  induction h1 generalizing h2 with
+  | nil =>
+    cases h2 with
+    | nil => simp at h; exact ⟨rfl, h⟩
+    | cons y h2' =>
+      simp at h
+      exact absurd (by rw [h.2]; simp) c1
+  | cons x h1' ih =>
+    cases h2 with
+    | nil =>
+      simp at h
+      exact absurd (by rw [← h.2]; simp) c2
+    | cons y h2' =>
+      simp at h
+      obtain ⟨rfl, h'⟩ := h
+      obtain ⟨e1, e2⟩ := ih h2' h'
+      exact ⟨by rw [e1], e2⟩
+
+/-- **The translated `hostport` on the UTF-8 bytes of a text is the reference split of the text** — the step from
+bytes to runes: a string is cut at the last byte 58, and that is the last `:` of the text because no other
+character has a byte 58 in its encoding. With `hostport_eq_reference` this is the character-level model. -/
+theorem xhostport_utf8 (cs : List Char) :
+    ∃ s', XHostport.run { p0 := utf8 cs } =
+      .ok ((utf8 (Spec.splitLastColon cs).1, utf8 (Spec.splitLastColon cs).2), s') := by
+  have hm := xhostport_eq_model (utf8 cs)
+  rw [Lemmas.C20.hostport_eq_split] at hm
+  cases hr : XHostport.run { p0 := utf8 cs } with
+  | panic w => simp [hr, obsHP, obsM] at hm
+  | ok r =>
+    obtain ⟨⟨hb, pb⟩, s'⟩ := r
+    simp only [hr, obsHP, obsM, Outcome.ok.injEq] at hm
+    have hm1 : chars hb = (Spec.splitLastColon (chars (utf8 cs))).1 := by rw [← hm]
+    have hm2 : chars pb = (Spec.splitLastColon (chars (utf8 cs))).2 := by rw [← hm]
+    refine ⟨s', ?_⟩
+    congr 2
+    by_cases hc : ':' ∈ cs
+    · have hcb : ':' ∈ chars (utf8 cs) := (colon_mem_chars _).mpr ((colon_mem_utf8 cs).mpr hc)
+      obtain ⟨f1, f2⟩ := Lemmas.C20.splitLastColon_spec (chars (utf8 cs)) hcb
+      rw [← hm1, ← hm2] at f1
+      rw [← hm2] at f2
+      have hbytes : hb ++ 58 :: pb = utf8 cs := by
+        apply chars_inj
+        rw [← f1]
+        simp [chars]
+      have hp : (58 : UInt8) ∉ pb := fun h => f2 ((colon_mem_chars pb).mpr h)
+      obtain ⟨g1, g2⟩ := Lemmas.C20.splitLastColon_spec cs hc
+      have hmodel : utf8 (Spec.splitLastColon cs).1 ++ 58 :: utf8 (Spec.splitLastColon cs).2 = utf8 cs := by
+        conv => rhs; rw [← g1]
+        simp [utf8, utf8_colon]
+      have hp' : (58 : UInt8) ∉ utf8 (Spec.splitLastColon cs).2 := fun h => g2 ((colon_mem_utf8 _).mp h)
+      obtain ⟨e1, e2⟩ := split_unique_gen 58 _ _ _ _ hp hp' (hbytes.trans hmodel.symm)
+      exact Prod.ext e1 e2
+    · have hcb : ¬ ':' ∈ chars (utf8 cs) := fun h => hc ((colon_mem_utf8 cs).mp ((colon_mem_chars _).mp h))
+      have c1 : (chars (utf8 cs)).contains ':' = false := by simpa using hcb
+      have c2 : cs.contains ':' = false := by simpa using hc
+      simp only [Spec.splitLastColon, c1, c2, Bool.false_eq_true, if_false] at hm1 hm2 ⊢
+      have e1 : hb = utf8 cs := chars_inj _ _ hm1
+      have e2 : pb = [] := by
+        cases pb <;> simp_all [chars]
+      rw [e1, e2]; rfl
+
+example : obsHP (XHostport.run { p0 := utf8 "hôte:8080".toList }) = .ok (chars (utf8 "hôte".toList), "8080".toList) := by
+  decide +kernel
+
+
 /-! ### `atoi` -/
 
 namespace AT
